@@ -44,6 +44,10 @@ class BootstrapProposalDistribution(ProposalDistribution):
 
                 log_p = np.log((1 - self.outlier_proposal_prob) / 2) - np.log(num_nodes)
 
+            # New node, only outliers in parent tree
+            elif len(self.parent_tree.nodes) == 0:
+                log_p = np.log(1 - self.outlier_proposal_prob)
+
             # New node
             else:
                 old_num_roots = len(self.parent_particle.tree_roots)
